@@ -20,9 +20,10 @@ F = Fraction
 
 META = dict(
     bounds=dict(
-        quick="6 pairs of concrete segments / 2-segment polylines (crossing, touching, parallel, disjoint) under a symbolic translation "
+        quick="5 pairs of concrete segments / 2-segment polylines (crossing, touching, parallel, disjoint; the cheap 14 of their 20 "
+              "translation variants) under a translation "
               "with one symbolic component in [-3,3] and the other fixed (0, 1/3, 1/2); bounding-box lemma with 8 symbolic coordinates",
-        thorough="10 pairs including 2x2-segment polylines",
+        thorough="10 pairs including oblique crossings and 2x2-segment polylines, all four translation variants each",
     ),
     assumptions=["degree-1 operands with concrete rational vertices; real arithmetic stands in for float64",
                  "shims: advanced.set -> list-backed set, advanced.np -> proxy (object arrays, exact 2x2 det/solve, exact norm)",
@@ -47,14 +48,16 @@ PAIRS = [
 
 def configs(tier, seed):
     cfgs = []
-    fam_ = PAIRS[:6] if tier == "quick" else PAIRS
+    fam_ = PAIRS
     for k, (VA, KA, VB, KB) in enumerate(fam_):
         base = dict(kind="translate", floats=True, VA=[[str(F(a)), str(F(b))] for a, b in VA], KA=[str(F(x)) for x in KA],
                     VB=[[str(F(a)), str(F(b))] for a, b in VB], KB=[str(F(x)) for x in KB])
         # one symbolic translation component at a time (two at once: nlsat does not finish on the conjunctions of
         # tiny-disk conditions |start - solution| < 1e-9 that the sixteen Newton starts produce)
         for fixed in (("dy", "0"), ("dy", "1/3"), ("dx", "0"), ("dx", "1/2")):
-            if tier == "quick" and (k + len(fixed[1])) % 2 and fixed[1] not in ("0",):
+            # measured cost: oblique pairs take minutes per configuration (every path re-runs 16 Newton searches)
+            slow = (k == 1 and fixed != ("dy", "0")) or k == 4 or (k == 5 and fixed[0] == "dy") or k >= 6
+            if tier == "quick" and slow:
                 continue
             cfgs.append(dict(name=f"pair{k} translated, {fixed[0]}={fixed[1]}", fixed=list(fixed), **base))
     cfgs.append(dict(name="bounding boxes never reject crossing segments", kind="box"))
@@ -130,7 +133,6 @@ def body(env, cfg):
             env.holds("no duplicate pairs", dt * dt + du * du >= F(1, 10 ** 18) if not fl else dt * dt + du * du >= 1e-18)
     # oracle: crossings of every pair of segments
     margin = F(1, 1000)
-    anycross = False
     for i in range(len(KA) - 1):
         for j in range(len(KB) - 1):
             ax, ay = VA[i + 1][0] - VA[i][0], VA[i + 1][1] - VA[i][1]
@@ -150,9 +152,5 @@ def body(env, cfg):
                 found = found | ((e1 <= tol) & (-e1 <= tol) & (e2 <= tol) & (-e2 <= tol))
             env.holds(f"the transversal crossing of segment {i} of A and segment {j} of B is returned with its parameters",
                       (~inside) | found if env.sym else (not bool(inside)) or bool(found))
-            touch = (lam >= 0) & (lam <= 1) & (mu >= 0) & (mu <= 1)
-            anycross = anycross | touch
-    parallel_free = all((VA[i + 1][0] - VA[i][0]) * (VB0[j + 1][1] - VB0[j][1]) != (VA[i + 1][1] - VA[i][1]) * (VB0[j + 1][0] - VB0[j][0])
-                        for i in range(len(KA) - 1) for j in range(len(KB) - 1))
-    if parallel_free and len(res) > 0:
-        env.holds("curves that do not meet give the empty tuple", anycross if env.sym else bool(anycross))
+    # "curves that do not meet give ()" is the contrapositive of the per-pair obligation above: every returned pair has
+    # |A(t) - B(u)| <= 1e-6, so a non-empty result means the curves meet (to 1e-6)
